@@ -534,20 +534,20 @@ class Epoch(object):
                 t = args[0]
             elif isinstance(args[0], (tuple, list)):
                 if len(args[0]) >= 3:
-                    t = Epoch(args[0][0], args[0][1], args[0][2], **kwargs)
+                    t = Epoch(args[0], **kwargs)
                 else:
                     raise ValueError("Invalid input")
             elif isinstance(args[0], datetime.datetime) or isinstance(
                 args[0], datetime.date
             ):
-                t = Epoch(args[0].year, args[0].month, args[0].day, **kwargs)
+                t = Epoch(args[0], **kwargs)
             else:
                 raise TypeError("Invalid input type")
         elif len(args) == 2:
             raise ValueError("Invalid input: Date given is not valid")
         elif len(args) >= 3:
             # We will rely on Epoch capacity to handle improper input
-            t = Epoch(args[0], args[1], args[2], **kwargs)
+            t = Epoch(*args, **kwargs)
         return t
 
     @staticmethod
